@@ -14,6 +14,8 @@ nothing is evaluated:
                         with straight-line control flow at its top level and at most one trailing return -> the helper's
                         statements with parameters renamed to the arguments and locals made unique
 
+  inline_generator_loops  `for T in h(a): B` with h a generator helper -> h's statements with every `yield E` replaced by `T = E; B`
+
   const_getattr         `getattr(x, "name")` -> `x.name`
 
 A transformation that cannot be applied safely (re-assigned names, break/continue, *args, generators, early returns) leaves the
@@ -519,6 +521,88 @@ def inline_stmt_calls(func, resolve, max_depth: int = 3):
     return func
 
 
+# ------------------------------------------------------------------------------------------------- generator helpers
+
+def _generator_callee(callee) -> bool:
+    """a helper whose body can be merged into the loop that consumes it: a plain generator function, every `yield E` a statement of
+    its own (1..3 of them), no return, no yield from / send protocol, no try / with around the yields, no nested functions"""
+    if not isinstance(callee, ast.FunctionDef):
+        return False
+    a = callee.args
+    if a.vararg or a.kwarg or a.posonlyargs:
+        return False
+    yields, stmt_yields = 0, 0
+    for n in ast.walk(callee):
+        if n is not callee and isinstance(n, (ast.FunctionDef, ast.AsyncFunctionDef, ast.ClassDef, ast.Lambda)):
+            return False
+        if isinstance(n, (ast.YieldFrom, ast.Await, ast.Global, ast.Nonlocal, ast.Return, ast.Try, ast.With, ast.AsyncFor, ast.AsyncWith)):
+            return False
+        if isinstance(n, ast.Yield):
+            yields += 1
+            if n.value is None:
+                return False
+        if isinstance(n, ast.Expr) and isinstance(n.value, ast.Yield):
+            stmt_yields += 1
+    return 1 <= yields <= 3 and yields == stmt_yields
+
+
+def inline_generator_loops(func, resolve, max_depth: int = 2):
+    """`for T in h(args): B` with h a generator helper (resolve(call) -> (callee, receiver) | None)  ->  h's statements, parameters
+    bound to the arguments and locals made unique (as inline_stmt_calls does), with every `yield E` replaced by `T = E` followed
+    by B.  This is exactly the order in which the two pieces of code run: the generator up to its next yield, then the loop body
+    with the yielded value, then the generator again.  Not applied when B leaves or restarts the loop (break / continue / else),
+    or re-binds a name handed to the helper (the helper keeps the object it was called with)."""
+    def expand(stmts, depth):
+        out = []
+        for st in stmts:
+            for fld in ("body", "orelse", "finalbody"):
+                b = getattr(st, fld, None)
+                if isinstance(b, list) and b and isinstance(b[0], ast.stmt) and not isinstance(st, (ast.FunctionDef, ast.ClassDef, ast.AsyncFunctionDef)):
+                    setattr(st, fld, expand(b, depth))
+            if isinstance(st, ast.Try):
+                for h in st.handlers:
+                    h.body = expand(h.body, depth)
+            if isinstance(st, ast.For) and not st.orelse and depth < max_depth:
+                call = st.iter
+                # tqdm(gen(..)) hands the items through one by one
+                if isinstance(call, ast.Call) and isinstance(call.func, ast.Name) and call.func.id == "tqdm" and call.args and isinstance(call.args[0], ast.Call):
+                    call = call.args[0]
+                r = resolve(call) if isinstance(call, ast.Call) else None
+                if r is not None and r[0] is not func and _generator_callee(r[0]) and not _top_level_jumps(st.body):
+                    argnames = set().union(*[_loaded(a) for a in call.args], *[_loaded(k.value) for k in call.keywords], set())
+                    tnames = {n.id for n in ast.walk(st.target) if isinstance(n, ast.Name)}
+                    if not (argnames & (_rebound(st.body) | tnames)):
+                        res = inline_stmts(r[0], call, r[1])
+                        if res is not None:
+                            body, _ = res
+                            loop = st
+
+                            class Y(ast.NodeTransformer):
+                                def visit_Expr(self, n):
+                                    if isinstance(n.value, ast.Yield):
+                                        tgt = copy.deepcopy(loop.target)
+                                        bind = ast.Assign(targets=[tgt], value=n.value.value)
+                                        new = [bind] + [copy.deepcopy(b) for b in loop.body]
+                                        for b in new:
+                                            ast.copy_location(b, loop) if not hasattr(b, "lineno") else None
+                                            ast.fix_missing_locations(b)
+                                        return new
+                                    return n
+                            new = []
+                            for b in body:
+                                r_ = Y().visit(b)
+                                new.extend(r_ if isinstance(r_, list) else [r_])
+                            for b in new:
+                                ast.copy_location(b, st) if not hasattr(b, "lineno") else None
+                                ast.fix_missing_locations(b)
+                            out.extend(expand(new, depth + 1))
+                            continue
+            out.append(st)
+        return out
+    func.body = expand(func.body, 0)
+    return func
+
+
 class _ReplaceNode(ast.NodeTransformer):
     def __init__(self, old, new):
         self.old, self.new = old, new
@@ -762,6 +846,7 @@ def expand_helpers(func, resolve):
             out.append(st)
         return out
     func.body = prepare(func.body)
+    inline_generator_loops(func, resolve)
     inline_stmt_calls(func, resolve)
     func.body = [_ExprInliner(resolve, func).visit(st) for st in func.body]
     ast.fix_missing_locations(func)
